@@ -9,6 +9,7 @@ package main
 // race detector monitors the same executions.
 
 import (
+	"strings"
 	"encoding/json"
 	"fmt"
 	"runtime"
@@ -287,7 +288,7 @@ func init() {
 			// whatever that kind of statement keeps outside the statement is used by several goroutines at once
 			theme := -1
 			if r.Intn(2) == 0 {
-				theme = []int{1, 2, 3, 5, 5, 100, 101, 102, 4, 0}[r.Intn(10)]
+				theme = []int{1, 2, 3, 5, 5, 100, 101, 102, 4, 0, 103}[r.Intn(11)]
 			}
 			for g := 0; g < ng; g++ {
 				reg := r.Intn(16)
@@ -296,12 +297,12 @@ func init() {
 				n := Field{E: ACall("int", AVal()), Nm: "n"}
 				var st *Stmt
 				raw := ""
-				kind := r.Intn(14)
+				kind := r.Intn(15)
 				if kind == 10 {
 					kind = 5
 				}
 				if kind >= 11 {
-					kind += 89 // 100, 101, 102: readers of a different sort (below)
+					kind += 89 // 100 .. 103: readers of a different sort (below)
 				}
 				if theme >= 0 && g < 3 {
 					kind = theme
@@ -360,6 +361,13 @@ func init() {
 				case 102:
 					st = &Stmt{Kind: "select", Fields: []Field{{E: ACall("group_concat", AIdx(ACall("json", AVal()), AStr("a")), AStr(",")), Nm: "as"}, {E: ACall("count", AInt(1)), Nm: "c"}},
 						Where: ABin("^=", AKey(), AStr(fmt.Sprintf("j%02d", reg)))}
+				case 103:
+					// a DELETE whose clause no key can satisfy (disjoint prefixes / equalities): it touches nothing, like a reader
+					if r.Intn(2) == 0 {
+						st = &Stmt{Kind: "delete", Where: ABin("&", kpre, ABin("^=", AKey(), AStr(fmt.Sprintf("q%02d", reg))))}
+					} else {
+						st = &Stmt{Kind: "delete", Where: ABin("&", ABin("=", AKey(), AStr(fmt.Sprintf("r%02dk1", reg))), ABin("=", AKey(), AStr(fmt.Sprintf("r%02dk2", reg))))}
+					}
 				default:
 					st = &Stmt{Kind: "delete", Where: kpre, Lim: Lim{Has: true, S: 1, N: 3}}
 				}
@@ -381,7 +389,7 @@ func init() {
 			if len(stmts) >= 1 && r.Intn(3) == 0 {
 				for tries := 0; tries < 4; tries++ {
 					j := r.Intn(len(stmts))
-					if stmts[j].Kind != "select" {
+					if stmts[j].Kind != "select" && !strings.Contains(texts[j], "^= 'q") {
 						continue
 					}
 					for c := 1 + r.Intn(2); c > 0; c-- {
